@@ -262,6 +262,15 @@ def run_history(ops: list, log_keep=False) -> dict:
                     fail("check:over-reports-equivalence", f"{op['a']} ~ {op['b']} modulo {sorted(K)} reported, closure says no", idx, op)
                 elif (not got) and lo:
                     fail("check:under-reports-equivalence", f"{op['a']} ~ {op['b']} modulo {sorted(K)} not reported", idx, op)
+                elif not K:
+                    # the user-facing query: Procedure.is_eq is the tracker's answer modulo no field
+                    try:
+                        api = bool(procs[op["a"]].is_eq(procs[op["b"]]))
+                    except Exception as e:  # noqa: BLE001
+                        api = f"raised {type(e).__name__}"
+                    probes.hit("is_eq_queried")
+                    if api != got:
+                        fail("is_eq:disagrees-with-tracker", f"{op['a']}.is_eq({op['b']}) = {api} but the tracker (and the closure) say {got}", idx, op)
             else:
                 is_eqv, keys = PE.get_strictest_eqv_proc(a, b)
                 keys = frozenset(keyname(s) for s in keys)
